@@ -75,10 +75,35 @@ def routes_scenario(route):
     ip.call(utils.env.vars["_add_supported_quantized_objects"], [lib], {})
     seen = {}
 
+    # three layers: trainable weights, weights that are all NON-trainable (frozen layer / moving statistics only), none.
+    # The contract is stated on what each rebuilt layer ends up holding, so a whole-model set_weights and a correct
+    # layer-by-layer copy both satisfy it (seed c13-8 guarded the copy by trainable_weights)
+    W = [[Term("w_dense")], [Term("w_frozen_a"), Term("w_frozen_b")], []]
+    TW = [[Term("w_dense")], [], []]
+    got = [None, None, None]
+
+    def mk_layers(dst):
+      out_ = []
+      for i_ in range(3):
+        a_ = {"name": "l%d" % i_, "trainable_weights": list(TW[i_]), "weights": list(W[i_]),
+              "get_weights": Builtin("get_weights", lambda ip__, i_=i_: list(W[i_]))}
+        if dst:
+          a_["set_weights"] = Builtin("set_weights", lambda ip__, w, i_=i_: got.__setitem__(i_, list(w)))
+        out_.append(Obj(ExtClass("Layer"), a_))
+      return out_
+
+    def model_set_weights(ip__, w):
+      w = list(w)
+      pos = 0
+      for i_ in range(3):
+        got[i_] = w[pos:pos + len(W[i_])]
+        pos += len(W[i_])
+      seen["weights"] = w
+
     def fake_from_json(ip_, js, custom_objects=None):
       seen["co"] = custom_objects
       seen["json"] = js
-      return Obj(ExtClass("Model"), {"set_weights": Builtin("set_weights", lambda ip__, w: seen.__setitem__("weights", w))},
+      return Obj(ExtClass("Model"), {"set_weights": Builtin("set_weights", model_set_weights), "layers": mk_layers(True)},
                  label="rebuilt")
 
     def fake_load(ip_, path, custom_objects=None, compile=True):   # pylint: disable=redefined-builtin
@@ -88,8 +113,9 @@ def routes_scenario(route):
       return Term("loaded")
     ip.setattr(utils, "model_from_json", Builtin("model_from_json", fake_from_json))
     ip.lib.TABLE["tf.keras.models.load_model"] = Builtin("load_model", fake_load)
-    model = Obj(ExtClass("Model"), {"to_json": Builtin("to_json", lambda ip_: "JSON"),
-                                   "get_weights": Builtin("get_weights", lambda ip_: Term("weights"))}, label="model")
+    model = Obj(ExtClass("Model"), {"to_json": Builtin("to_json", lambda ip_: "JSON"), "layers": mk_layers(False),
+                                   "get_weights": Builtin("get_weights", lambda ip_: [x for ws in W for x in ws])},
+                label="model")
     if route == "clone":
       r = run_call(ip, utils.env.vars["clone_model"], [model, user])
     elif route == "json":
@@ -106,7 +132,7 @@ def routes_scenario(route):
     s.claim("caller_dict_untouched", user == {"MyLayer": user_obj} and co is not user)
     if route == "clone":
       s.claim("same_document", seen.get("json") == "JSON")
-      s.claim("weights_copied", seen.get("weights") == Term("weights"))
+      s.claim("weights_copied", all((got[i_] or []) == W[i_] for i_ in range(3)))
     elif route == "json":
       s.claim("same_document", seen.get("json") == "JSON")
     else:
